@@ -139,7 +139,7 @@ def run(ctx, chk):
         holder = final_holder(fb, wb)
         loops[cid] = holder
         chk.saw(holder)
-        kind = 'poller' if any(fn and is_chrony_query(fn['path']) for _, _, fn in common.user_calls(holder)) else \
+        kind = 'poller' if common.reaches_call(fb, holder, is_chrony_query) else \
             'writer' if reaches_write(fb, holder) else 'unknown'
         want = {'ClockErrorBoundPoller': 'poller', 'ShmWriter': 'writer'}.get(cid)
         chk.ob('C15.N2', 'spawn:id-matches-worker:%s' % cid, kind == want, holder.where(0),
@@ -406,6 +406,18 @@ def abort_and_blocking(fb, chk, cid, holder, msgs):
                'after ThreadAbort the loop head exits to return with no further call' if ok else
                'after ThreadAbort the worker keeps going: %s' % detail[:3])
     chk.floor('C15.N5', 'ThreadAbort paths in the %s loop' % cid, n_abort, 1)
+    # N8: an iteration that goes round again must have looked at the mailbox, otherwise ThreadAbort is never seen
+    n_back = 0
+    for p in paths:
+        if p.kind != 'backedge':
+            continue
+        n_back += 1
+        names = [ef['callee'] for ef in p.effects if ef['kind'] == 'call' and not ef['tracing']]
+        polled = any(n.endswith(('Receiver::<T>::recv', 'Receiver::<T>::recv_timeout', 'Receiver::<T>::try_recv')) for n in names)
+        chk.ob('C15.N8', 'loop:every-iteration-reads-the-mailbox:%s' % cid, polled, p.where[2],
+               'an iteration of the %s loop returns to the loop head %s' % (cid, 'after reading its mailbox' if polled else
+               'WITHOUT reading its mailbox (calls: %s): ThreadAbort can be ignored forever' % [n.split('::')[-1] for n in names][:6]))
+    chk.floor('C15.N8', 'looping paths in the %s loop' % cid, n_back, 1)
     # ---- N6 blocking calls
     for nm, ef in sorted(ext.items()):
         if fb.body(nm) is not None:
